@@ -1,4 +1,7 @@
 import PEval.Lemmas.Heading
+import PEval.Lemmas.HeadingQuat
+import PEval.Lemmas.HeadingClosed
+import PEval.Lemmas.HeadingReal
 /-!
 # C09 — heading comparisons use the true minimal yaw difference
 
@@ -211,5 +214,466 @@ example : headingError 0 1 = 1 ∧ headingErrorMap (1/2) 0 1 = -1 := by decide +
 /-- both wrap directions of the analyzer's column, and a map rendering that moves the pair across the cut -/
 example : analyzerYawError (-61/64) (61/64) = -3/32 ∧ analyzerYawError (61/64) (-61/64) = 3/32 ∧
     analyzerYawErrorMap (1/2) (3/4) (1/4) = -1/2 := by decide +kernel
+
+/-! # Quaternion level: "not on the sign convention of the quaternion" (audit C09-1)
+
+`PEval.Model.HeadingQuat`: an orientation is a rational quaternion; the code reads it through
+`yaw_pitch_roll[0] = arctan2(yawDir.s, yawDir.c)`, `yawDir` being two polynomials of the components.  `arctan2` is a
+parameter `at2` of `yawVia`, `aphWeightQ`, `headingErrorQ`, `analyzerYawErrorQ`: the theorems of this block hold for
+EVERY function `at2` and for EVERY quaternion (3-D, unit or not).  The defective variant is `radiansVia` / `radiansDir`
+(F3, seed C09_G: `orientation.radians`). -/
+open PEval.Transform
+
+/-- `q` and `−q` determine the same heading direction (the two arguments of `arctan2`) -/
+theorem heading_of_neg (q : Quat) : yawDir (-q) = yawDir q := yawDir_neg q
+
+/-- the heading direction is read off the rotation matrix (`R[0,0]`, `−R[0,1]`) … -/
+theorem yawDir_of_rotMat (q : Quat) (h : q.normSq = 1) : yawDir q = ⟨(rotMat q).r0.x, -(rotMat q).r0.y⟩ :=
+  yawDir_eq_rotMat q h
+
+/-- … so two unit quaternions that are the same rotation have the same heading direction: "depends only on the
+physical orientation" -/
+theorem yawDir_same_rotation (p q : Quat) (hp : p.normSq = 1) (hq : q.normSq = 1) (h : rotMat p = rotMat q) :
+    yawDir p = yawDir q := by
+  rw [yawDir_eq_rotMat p hp, yawDir_eq_rotMat q hq, h]
+
+/-- the yaw the code computes does not depend on the representative -/
+theorem yawVia_sign_invariant (at2 : Rat → Rat → Rat) (q : Quat) (b : Bool) :
+    yawVia at2 (withSign b q) = yawVia at2 q := by
+  unfold yawVia; rw [yawDir_withSign]
+
+/-- the APH weight does not depend on the sign convention of either quaternion (all four sign patterns) -/
+theorem aphWeightQ_sign_invariant (at2 : Rat → Rat → Rat) (qe qg : Quat) (be bg : Bool) :
+    aphWeightQ at2 (withSign be qe) (withSign bg qg) = aphWeightQ at2 qe qg := by
+  unfold aphWeightQ; rw [yawVia_sign_invariant, yawVia_sign_invariant]
+
+/-- nor does the reported yaw error … -/
+theorem headingErrorQ_sign_invariant (at2 : Rat → Rat → Rat) (qe qg : Quat) (be bg : Bool) :
+    headingErrorQ at2 (withSign be qe) (withSign bg qg) = headingErrorQ at2 qe qg := by
+  unfold headingErrorQ; rw [yawVia_sign_invariant, yawVia_sign_invariant]
+
+/-- … nor the analyzer's yaw error column … -/
+theorem analyzerYawErrorQ_sign_invariant (at2 : Rat → Rat → Rat) (qe qg : Quat) (be bg : Bool) :
+    analyzerYawErrorQ at2 (withSign be qe) (withSign bg qg) = analyzerYawErrorQ at2 qe qg := by
+  unfold analyzerYawErrorQ; rw [yawVia_sign_invariant, yawVia_sign_invariant]
+
+/-- … nor the weight of the pair rendered in the map frame (the sign of the ego rotation included: eight patterns) -/
+theorem aphWeightQMap_sign_invariant (at2 : Rat → Rat → Rat) (q0 qe qg : Quat) (b0 be bg : Bool) :
+    aphWeightQMap at2 (withSign b0 q0) (withSign be qe) (withSign bg qg) = aphWeightQMap at2 q0 qe qg := by
+  unfold aphWeightQMap aphWeightQ yawVia
+  rw [yawDir_withSign_mul, yawDir_withSign_mul]
+
+/-- the quaternion-level functions are the τ-model applied to the code's yaw (so every τ-theorem above transfers as soon as
+the yaws are in the domain) -/
+theorem aphWeightQ_eq_tau (at2 : Rat → Rat → Rat) (qe qg : Quat) :
+    aphWeightQ at2 qe qg = aphWeight (yawVia at2 qe) (yawVia at2 qg) ∧
+    headingErrorQ at2 qe qg = headingError (yawVia at2 qe) (yawVia at2 qg) ∧
+    analyzerYawErrorQ at2 qe qg = headingError (yawVia at2 qe) (yawVia at2 qg) :=
+  ⟨rfl, rfl, analyzerYawError_eq_headingError _ _⟩
+
+/-! ### pure-yaw quaternions: the heading direction is the double-angle pair, composition multiplies directions -/
+
+theorem yawDir_pureYaw {q : Quat} (h : YawOnly q) :
+    yawDir q = ⟨q.w * q.w - q.z * q.z, 2 * (q.w * q.z)⟩ ∧ (yawDir q).OnCircle := yawDir_yawOnly h
+
+theorem yawDir_compose {q0 q : Quat} (h0 : YawOnly q0) (h : YawOnly q) :
+    yawDir (q0 * q) = (yawDir q0).mul (yawDir q) ∧ YawOnly (q0 * q) := ⟨yawDir_mul h0 h, h0.mul h⟩
+
+/-- cosine and sine of the yaw difference (dot and cross product of the heading directions) are the same in every frame:
+both orientations composed with the same ego rotation -/
+theorem dirDiff_frame_invariant {q0 qe qg : Quat} (h0 : YawOnly q0) (he : YawOnly qe) (hg : YawOnly qg) :
+    cosDiff (yawDir (q0 * qe)) (yawDir (q0 * qg)) = cosDiff (yawDir qe) (yawDir qg) ∧
+    sinDiff (yawDir (q0 * qe)) (yawDir (q0 * qg)) = sinDiff (yawDir qe) (yawDir qg) := by
+  rw [yawDir_mul h0 he, yawDir_mul h0 hg]
+  exact ⟨cosDiff_mul_left _ _ _ (yawDir_yawOnly h0).2, sinDiff_mul_left _ _ _ (yawDir_yawOnly h0).2⟩
+
+/-- … and for every choice of representatives -/
+theorem dirDiff_sign_invariant (qe qg : Quat) (be bg : Bool) :
+    cosDiff (yawDir (withSign be qe)) (yawDir (withSign bg qg)) = cosDiff (yawDir qe) (yawDir qg) ∧
+    sinDiff (yawDir (withSign be qe)) (yawDir (withSign bg qg)) = sinDiff (yawDir qe) (yawDir qg) := by
+  rw [yawDir_withSign, yawDir_withSign]; exact ⟨rfl, rfl⟩
+
+/-- symmetric cosine, antisymmetric sine -/
+theorem dirDiff_swap (a b : Dir) : cosDiff b a = cosDiff a b ∧ sinDiff b a = -sinDiff a b :=
+  ⟨cosDiff_comm b a, sinDiff_antisymm a b⟩
+
+/-- equal headings ⇔ cosine 1, opposite headings ⇔ cosine −1, and the cosine lies in `[−1, 1]` -/
+theorem cosDiff_characterisation {a b : Dir} (ha : a.OnCircle) (hb : b.OnCircle) :
+    (cosDiff a b = 1 ↔ a = b) ∧ (cosDiff a b = -1 ↔ a = b.opp) ∧ -1 ≤ cosDiff a b ∧ cosDiff a b ≤ 1 :=
+  ⟨cosDiff_eq_one_iff ha hb, cosDiff_eq_neg_one_iff ha hb, neg_one_le_cosDiff ha hb, cosDiff_le_one ha hb⟩
+
+/-! ### the defective variant F3 / C09_G (`orientation.radians`) is NOT sign invariant -/
+
+/-- `.radians` agrees with the yaw exactly when the z-component is non-negative (or `w = 0`): the sign of the yaw is
+replaced by the sign convention of the quaternion -/
+theorem radiansDir_eq_yawDir_iff {q : Quat} (h : YawOnly q) : radiansDir q = yawDir q ↔ (q.w = 0 ∨ 0 ≤ q.z) := by
+  rw [(yawDir_yawOnly h).1]
+  unfold radiansDir absR
+  simp only [Dir.mk.injEq, true_and]
+  by_cases hz : q.z < 0
+  · rw [if_pos hz]
+    constructor
+    · intro e
+      left
+      have : q.w * q.z = 0 := by linarith
+      rcases mul_eq_zero.1 this with h' | h'
+      · exact h'
+      · exact absurd h' (ne_of_lt hz)
+    · rintro (h' | h')
+      · rw [h']; ring
+      · exact absurd h' (not_le.2 hz)
+  · rw [if_neg hz]
+    constructor
+    · intro _; right; exact not_lt.1 hz
+    · intro _; ring
+
+/-- the direction of `.radians` flips with the representative: `q = (4/5, 0, 0, 3/5)` vs `−q` -/
+theorem radiansDir_not_sign_invariant :
+    YawOnly ⟨4/5, 0, 0, 3/5⟩ ∧ radiansDir (-⟨4/5, 0, 0, 3/5⟩) ≠ radiansDir ⟨4/5, 0, 0, 3/5⟩ ∧
+    yawDir (-⟨4/5, 0, 0, 3/5⟩) = yawDir ⟨4/5, 0, 0, 3/5⟩ := by decide +kernel
+
+/-- … and a negative yaw written with `w > 0` is seen as the mirrored positive yaw -/
+theorem radiansDir_loses_yaw_sign :
+    radiansDir ⟨4/5, 0, 0, -3/5⟩ = yawDir ⟨4/5, 0, 0, 3/5⟩ ∧ yawDir ⟨4/5, 0, 0, -3/5⟩ ≠ yawDir ⟨4/5, 0, 0, 3/5⟩ := by
+  decide +kernel
+
+/-- the angle `.radians` itself: for EVERY `arctan2` that puts a first-quadrant point strictly inside `(0, π/2)` and a
+second-quadrant point inside `(π/2, π]`, `q` and `−q` get different angles and the pre-fix weight of an object
+paired with ITSELF written as `−q` is not 1 — the statements `yawVia_sign_invariant`, `aphWeightQ_sign_invariant` fail
+for the defective variant -/
+theorem radiansVia_not_sign_invariant (at2 : Rat → Rat → Rat)
+    (h1 : 0 < at2 (3/5) (4/5) ∧ at2 (3/5) (4/5) < 1/2) (h2 : 1/2 < at2 (3/5) (-4/5) ∧ at2 (3/5) (-4/5) ≤ 1) :
+    radiansVia at2 (withSign true ⟨4/5, 0, 0, 3/5⟩) ≠ radiansVia at2 ⟨4/5, 0, 0, 3/5⟩ ∧
+    aphWeightQF3 at2 ⟨4/5, 0, 0, 3/5⟩ ⟨4/5, 0, 0, 3/5⟩ = 1 ∧
+    aphWeightQF3 at2 ⟨4/5, 0, 0, 3/5⟩ (withSign true ⟨4/5, 0, 0, 3/5⟩) ≠ 1 := by
+  have a1 : absR (3/5) = 3/5 := by decide +kernel
+  have a2 : absR (-(3/5)) = 3/5 := by decide +kernel
+  have e1 : radiansVia at2 ⟨4/5, 0, 0, 3/5⟩ = 2 * at2 (3/5) (4/5) := by
+    simp only [radiansVia, a1]
+    rw [if_neg (by linarith [h1.2])]
+  have e2 : radiansVia at2 (withSign true ⟨4/5, 0, 0, 3/5⟩) = 2 * at2 (3/5) (-4/5) - 2 := by
+    have hq : withSign true (⟨4/5, 0, 0, 3/5⟩ : Quat) = ⟨-(4/5), -0, -0, -(3/5)⟩ := rfl
+    rw [hq]
+    simp only [radiansVia, a2]
+    rw [if_pos (by have := h2.1; rw [show (-(4/5) : Rat) = -4/5 by norm_num]; linarith)]
+    norm_num
+  have d1 : InDom (2 * at2 (3/5) (4/5)) := ⟨by linarith [h1.1], by linarith [h1.2]⟩
+  have d2 : InDom (2 * at2 (3/5) (-4/5) - 2) := ⟨by linarith [h2.1], by linarith [h2.2]⟩
+  have hne : 2 * at2 (3/5) (-4/5) - 2 ≠ 2 * at2 (3/5) (4/5) := by
+    intro e; linarith [h1.1, h2.2]
+  refine ⟨by rw [e1, e2]; exact hne, ?_, ?_⟩
+  · unfold aphWeightQF3; rw [e1]; exact (aphWeight_eq_one_iff d1 d1).2 rfl
+  · unfold aphWeightQF3; rw [e1, e2]
+    intro h
+    exact hne ((aphWeight_eq_one_iff d1 d2).1 h).symm
+
+/-! # The bridge to the τ-model: ONE named hypothesis, `YawBridge` (audit C09-1, part c)
+
+`YawBridge at2 ac pts` (`PEval.Model.HeadingQuat`) collects the non-polynomial facts: `at2 s c` is the angle (in half-turns,
+in `(−1, 1]`) of the direction `(c, s)`, the minimal difference of two such angles is `ac` of the dot product with `ac`
+strictly decreasing from `ac 1 = 0` to `ac (−1) = 1`, and the wrapped signed difference is in `(0, 1)` exactly when the
+cross product is positive.  Everything below is proved from it and from the polynomial identities above. -/
+
+section bridge
+variable {at2 : Rat → Rat → Rat} {ac : Rat → Rat} {pts : Dir → Prop}
+
+/-- the APH weight is a function of the dot product of the two heading directions: `1 − arccos(a·b)/π` -/
+theorem aphWeightQ_eq_dir (B : YawBridge at2 ac pts) {qe qg : Quat} (he : pts (yawDir qe)) (hg : pts (yawDir qg)) :
+    aphWeightQ at2 qe qg = 1 - ac (cosDiff (yawDir qe) (yawDir qg)) := by
+  unfold aphWeightQ yawVia
+  rw [(aphWeight_eq (B.dom _ he) (B.dom _ hg)).1, B.dist _ _ he hg]
+
+/-- weight 1 exactly when both quaternions have the same heading direction (e.g. `q` and `−q`) -/
+theorem aphWeightQ_eq_one_iff_dir (B : YawBridge at2 ac pts) {qe qg : Quat} (he : pts (yawDir qe))
+    (hg : pts (yawDir qg)) : aphWeightQ at2 qe qg = 1 ↔ yawDir qe = yawDir qg := by
+  have ce := B.on_circle _ he
+  have cg := B.on_circle _ hg
+  rw [aphWeightQ_eq_dir B he hg, ← cosDiff_eq_one_iff ce cg,
+    ← anti_eq_iff B.ac_anti ⟨neg_one_le_cosDiff ce cg, cosDiff_le_one ce cg⟩ ⟨by norm_num, le_refl 1⟩, B.ac_one]
+  constructor <;> intro h <;> linarith
+
+/-- weight 0 exactly for opposite heading directions -/
+theorem aphWeightQ_eq_zero_iff_dir (B : YawBridge at2 ac pts) {qe qg : Quat} (he : pts (yawDir qe))
+    (hg : pts (yawDir qg)) : aphWeightQ at2 qe qg = 0 ↔ yawDir qe = (yawDir qg).opp := by
+  have ce := B.on_circle _ he
+  have cg := B.on_circle _ hg
+  rw [aphWeightQ_eq_dir B he hg, ← cosDiff_eq_neg_one_iff ce cg,
+    ← anti_eq_iff B.ac_anti ⟨neg_one_le_cosDiff ce cg, cosDiff_le_one ce cg⟩ ⟨le_refl _, by norm_num⟩, B.ac_neg_one]
+  constructor <;> intro h <;> linarith
+
+/-- comparing two weights is comparing two dot products (the comparison `d ≤ d'` through the cosines) -/
+theorem aphWeightQ_le_iff_dir (B : YawBridge at2 ac pts) {qe qg qe' qg' : Quat} (he : pts (yawDir qe))
+    (hg : pts (yawDir qg)) (he' : pts (yawDir qe')) (hg' : pts (yawDir qg')) :
+    aphWeightQ at2 qe qg ≤ aphWeightQ at2 qe' qg' ↔
+      cosDiff (yawDir qe) (yawDir qg) ≤ cosDiff (yawDir qe') (yawDir qg') := by
+  have ce := B.on_circle _ he
+  have cg := B.on_circle _ hg
+  have ce' := B.on_circle _ he'
+  have cg' := B.on_circle _ hg'
+  rw [aphWeightQ_eq_dir B he hg, aphWeightQ_eq_dir B he' hg',
+    ← anti_le_iff B.ac_anti ⟨neg_one_le_cosDiff ce' cg', cosDiff_le_one ce' cg'⟩
+      ⟨neg_one_le_cosDiff ce cg, cosDiff_le_one ce cg⟩]
+  constructor <;> intro h <;> linarith
+
+/-- frame invariance at the quaternion level: both orientations composed with the ego rotation `q0` -/
+theorem aphWeightQMap_frame_invariant (B : YawBridge at2 ac pts) {q0 qe qg : Quat} (h0 : YawOnly q0) (he : YawOnly qe)
+    (hg : YawOnly qg) (pe : pts (yawDir qe)) (pg : pts (yawDir qg)) (pe' : pts (yawDir (q0 * qe)))
+    (pg' : pts (yawDir (q0 * qg))) : aphWeightQMap at2 q0 qe qg = aphWeightQ at2 qe qg := by
+  unfold aphWeightQMap
+  rw [aphWeightQ_eq_dir B pe' pg', aphWeightQ_eq_dir B pe pg, (dirDiff_frame_invariant h0 he hg).1]
+
+/-- the magnitude of the reported yaw error is `arccos` of the dot product … -/
+theorem headingErrorQ_abs_dir (B : YawBridge at2 ac pts) {qe qg : Quat} (he : pts (yawDir qe)) (hg : pts (yawDir qg)) :
+    absR (headingErrorQ at2 qe qg) = ac (cosDiff (yawDir qe) (yawDir qg)) := by
+  unfold headingErrorQ yawVia
+  rw [headingError_abs_eq_d (B.dom _ he) (B.dom _ hg), B.dist _ _ he hg]
+
+/-- … its sign is the sign of the cross product: positive … -/
+theorem headingErrorQ_pos_iff_dir (B : YawBridge at2 ac pts) {qe qg : Quat} (he : pts (yawDir qe))
+    (hg : pts (yawDir qg)) :
+    (0 < headingErrorQ at2 qe qg ∧ headingErrorQ at2 qe qg < 1) ↔ 0 < sinDiff (yawDir qe) (yawDir qg) :=
+  B.sin_sign _ _ he hg
+
+/-- … negative (by antisymmetry of both sides) -/
+theorem headingErrorQ_neg_iff_dir (B : YawBridge at2 ac pts) {qe qg : Quat} (he : pts (yawDir qe))
+    (hg : pts (yawDir qg)) :
+    (-1 < headingErrorQ at2 qe qg ∧ headingErrorQ at2 qe qg < 0) ↔ sinDiff (yawDir qe) (yawDir qg) < 0 := by
+  have h := B.sin_sign _ _ hg he
+  have e : clip (at2 (yawDir qe).s (yawDir qe).c - at2 (yawDir qg).s (yawDir qg).c) = -headingErrorQ at2 qe qg := by
+    unfold headingErrorQ yawVia
+    exact headingError_antisymm _ _
+  rw [e, sinDiff_antisymm] at h
+  constructor
+  · intro hh; have := h.1 ⟨by linarith [hh.2], by linarith [hh.1]⟩; linarith
+  · intro hh; have := h.2 (by linarith); exact ⟨by linarith [this.2], by linarith [this.1]⟩
+
+/-- the signed error of a pair is determined by cosine and sine of the yaw difference — up to the sign at the boundary
+`d = π` — so it is the same for all representatives and (for pure-yaw orientations) in every frame -/
+theorem headingErrorQ_determined (B : YawBridge at2 ac pts) {qe qg qe' qg' : Quat} (he : pts (yawDir qe))
+    (hg : pts (yawDir qg)) (he' : pts (yawDir qe')) (hg' : pts (yawDir qg'))
+    (hc : cosDiff (yawDir qe') (yawDir qg') = cosDiff (yawDir qe) (yawDir qg))
+    (hs : sinDiff (yawDir qe') (yawDir qg') = sinDiff (yawDir qe) (yawDir qg)) :
+    headingErrorQ at2 qe' qg' = headingErrorQ at2 qe qg ∨
+      (absR (headingErrorQ at2 qe qg) = 1 ∧ headingErrorQ at2 qe' qg' = -headingErrorQ at2 qe qg) := by
+  have habs : absR (headingErrorQ at2 qe' qg') = absR (headingErrorQ at2 qe qg) := by
+    rw [headingErrorQ_abs_dir B he' hg', headingErrorQ_abs_dir B he hg, hc]
+  have hp := headingErrorQ_pos_iff_dir B he hg
+  have hp' := headingErrorQ_pos_iff_dir B he' hg'
+  have hn := headingErrorQ_neg_iff_dir B he hg
+  have hn' := headingErrorQ_neg_iff_dir B he' hg'
+  rw [hs] at hp' hn'
+  have r := headingError_range (B.dom _ he) (B.dom _ hg)
+  have r' := headingError_range (B.dom _ he') (B.dom _ hg')
+  change -1 ≤ headingErrorQ at2 qe qg ∧ headingErrorQ at2 qe qg ≤ 1 at r
+  change -1 ≤ headingErrorQ at2 qe' qg' ∧ headingErrorQ at2 qe' qg' ≤ 1 at r'
+  generalize headingErrorQ at2 qe qg = e at *
+  generalize headingErrorQ at2 qe' qg' = e' at *
+  generalize sinDiff (yawDir qe) (yawDir qg) = sd at *
+  unfold absR at habs ⊢
+  by_cases c1 : 0 < e ∧ e < 1
+  · have c1' := hp'.2 (hp.1 c1)
+    left
+    rw [if_neg (by linarith [c1.1]), if_neg (by linarith [c1'.1])] at habs
+    exact habs
+  · by_cases c2 : -1 < e ∧ e < 0
+    · have c2' := hn'.2 (hn.1 c2)
+      left
+      rw [if_pos c2.2, if_pos c2'.2] at habs
+      linarith
+    · -- e ∈ {−1, 0, 1}
+      have hsd0 : ¬ (0 < sd) := fun h => c1 (hp.2 h)
+      have hsd1 : ¬ (sd < 0) := fun h => c2 (hn.2 h)
+      have n1 : ¬ (0 < e' ∧ e' < 1) := fun h => hsd0 (hp'.1 h)
+      have n2 : ¬ (-1 < e' ∧ e' < 0) := fun h => hsd1 (hn'.1 h)
+      have tri : ∀ x : Rat, -1 ≤ x ∧ x ≤ 1 → ¬ (0 < x ∧ x < 1) → ¬ (-1 < x ∧ x < 0) → x = -1 ∨ x = 0 ∨ x = 1 := by
+        intro x hx a b
+        rcases lt_trichotomy x 0 with h | h | h
+        · left
+          by_contra hne
+          exact b ⟨lt_of_le_of_ne hx.1 (Ne.symm hne), h⟩
+        · right; left; exact h
+        · right; right
+          by_contra hne
+          exact a ⟨h, lt_of_le_of_ne hx.2 hne⟩
+      rcases tri e r c1 c2 with rfl | rfl | rfl <;> rcases tri e' r' n1 n2 with rfl | rfl | rfl <;>
+        first
+          | (exfalso; norm_num at habs; done)
+          | norm_num
+
+/-- frame invariance of the signed error at the quaternion level (boundary exception as in the τ-model) -/
+theorem headingErrorQ_frame_invariant (B : YawBridge at2 ac pts) {q0 qe qg : Quat} (h0 : YawOnly q0) (he : YawOnly qe)
+    (hg : YawOnly qg) (pe : pts (yawDir qe)) (pg : pts (yawDir qg)) (pe' : pts (yawDir (q0 * qe)))
+    (pg' : pts (yawDir (q0 * qg))) :
+    headingErrorQ at2 (q0 * qe) (q0 * qg) = headingErrorQ at2 qe qg ∨
+      (absR (headingErrorQ at2 qe qg) = 1 ∧ headingErrorQ at2 (q0 * qe) (q0 * qg) = -headingErrorQ at2 qe qg) :=
+  headingErrorQ_determined B pe pg pe' pg' (dirDiff_frame_invariant h0 he hg).1 (dirDiff_frame_invariant h0 he hg).2
+
+end bridge
+
+/-- the bridge hypothesis is satisfiable: the four axis directions with their exact angles `0, 1/2, 1, −1/2` and
+`arccos x / π = (1 − x)/2` at `x ∈ {1, 0, −1}`.  (Over `ℚ` these are the only directions with a rational angle; see
+`PEval.HeadingReal` for the same facts over `ℝ`, where they hold on the whole circle.) -/
+theorem yawBridge_axes : YawBridge at2Axes acAxes (fun d => d ∈ axisPts) where
+  on_circle := by decide +kernel
+  dom := by decide +kernel
+  dist := by
+    have h : ∀ a ∈ axisPts, ∀ b ∈ axisPts,
+        circDist (at2Axes a.s a.c) (at2Axes b.s b.c) = acAxes (cosDiff a b) := by decide +kernel
+    exact fun a b ha hb => h a ha b hb
+  ac_anti := by intro x y _ h _; unfold acAxes; linarith
+  ac_one := by decide +kernel
+  ac_neg_one := by decide +kernel
+  sin_sign := by
+    have h : ∀ a ∈ axisPts, ∀ b ∈ axisPts,
+        ((0 < clip (at2Axes b.s b.c - at2Axes a.s a.c) ∧ clip (at2Axes b.s b.c - at2Axes a.s a.c) < 1) ↔
+          0 < sinDiff a b) := by decide +kernel
+    exact fun a b ha hb => h a ha b hb
+
+/-! ### instances of the quaternion-level hypotheses -/
+
+/-- yaw 0 as `q`, yaw π as `−q`: on the axes, opposite, weight 0, error of magnitude 1 -/
+example : YawOnly ⟨1, 0, 0, 0⟩ ∧ YawOnly ⟨0, 0, 0, -1⟩ ∧ yawDir ⟨1, 0, 0, 0⟩ ∈ axisPts ∧ yawDir ⟨0, 0, 0, -1⟩ ∈ axisPts ∧
+    aphWeightQ at2Axes ⟨1, 0, 0, 0⟩ ⟨0, 0, 0, -1⟩ = 0 ∧ aphWeightQ at2Axes ⟨0, 0, 0, 1⟩ ⟨0, 0, 0, -1⟩ = 1 ∧
+    headingErrorQ at2Axes ⟨1, 0, 0, 0⟩ ⟨0, 0, 0, -1⟩ = 1 := by decide +kernel
+/-- a genuinely 3-D unit quaternion and its negative: same heading direction -/
+example : (⟨1/5, 2/5, 2/5, 4/5⟩ : Quat).normSq = 1 ∧ yawDir ⟨1/5, 2/5, 2/5, 4/5⟩ = ⟨-3/5, 0⟩ ∧
+    yawDir (-⟨1/5, 2/5, 2/5, 4/5⟩) = ⟨-3/5, 0⟩ := by decide +kernel
+/-- composition of two pure-yaw rotations: directions multiply (angle addition without angles) -/
+example : YawOnly ⟨4/5, 0, 0, 3/5⟩ ∧ YawOnly ⟨12/13, 0, 0, -5/13⟩ ∧
+    yawDir (⟨4/5, 0, 0, 3/5⟩ * ⟨12/13, 0, 0, -5/13⟩) = (yawDir ⟨4/5, 0, 0, 3/5⟩).mul (yawDir ⟨12/13, 0, 0, -5/13⟩) := by
+  decide +kernel
+/-- the hypotheses of `radiansVia_not_sign_invariant` hold for a crude rational `arctan2` (exact quadrant, linear inside) -/
+example : let at2 : Rat → Rat → Rat := fun y x => if x > 0 then y / 2 else 1 - y / 2
+    (0 < at2 (3/5) (4/5) ∧ at2 (3/5) (4/5) < 1/2) ∧ (1/2 < at2 (3/5) (-4/5) ∧ at2 (3/5) (-4/5) ≤ 1) := by decide +kernel
+
+/-! # The closed yaw domain `[−π, π]` (audit C09-2)
+
+`np.arctan2(-0.0, -x) = −π`: in floats `yaw_pitch_roll[0]` can return `−π`, which `InDom` excludes.  The theorems hold on
+`InDomC τ : −1 ≤ τ ≤ 1`; the only change is that `−1` and `1` name the same heading. -/
+
+theorem aphWeight_eq_closed {τe τg : Rat} (he : InDomC τe) (hg : InDomC τg) :
+    aphWeight τe τg = 1 - circDist τe τg ∧ 0 ≤ circDist τe τg ∧ circDist τe τg ≤ 1 := by
+  have h0 := circDist_nonneg_closed he hg
+  have h1 := circDist_le_one τe τg
+  refine ⟨?_, h0, h1⟩
+  unfold aphWeight
+  rw [foldAbs_heading_closed he hg, clamp01_id (by linarith) (by linarith)]
+
+/-- on the yaw domain the clamp `min(1, max(0, ·))` never fires: `aphWeight_range` is a consequence of the heading
+arithmetic there, not of the clamp (audit C09-3) -/
+theorem aphWeight_clamp_inactive {τe τg : Rat} (he : InDomC τe) (hg : InDomC τg) :
+    aphWeight τe τg = 1 - foldAbs (headingBev τe - headingBev τg) ∧
+      0 ≤ 1 - foldAbs (headingBev τe - headingBev τg) ∧ 1 - foldAbs (headingBev τe - headingBev τg) ≤ 1 := by
+  have h := aphWeight_eq_closed he hg
+  rw [foldAbs_heading_closed he hg]
+  exact ⟨h.1, by linarith [h.2.2], by linarith [h.2.1]⟩
+
+/-- weight 1 ⇔ the same heading: equal yaws, or the two names `−π`, `π` of one heading -/
+theorem aphWeight_eq_one_iff_closed {τe τg : Rat} (he : InDomC τe) (hg : InDomC τg) :
+    aphWeight τe τg = 1 ↔ (τe = τg ∨ absR (τe - τg) = 2) := by
+  rw [(aphWeight_eq_closed he hg).1, ← circDist_eq_zero_iff_closed he hg]
+  constructor <;> intro h <;> linarith
+
+theorem aphWeight_eq_zero_iff_closed {τe τg : Rat} (he : InDomC τe) (hg : InDomC τg) :
+    aphWeight τe τg = 0 ↔ circDist τe τg = 1 := by
+  rw [(aphWeight_eq_closed he hg).1]
+  constructor <;> intro h <;> linarith
+
+theorem headingError_range_closed {τe τg : Rat} (he : InDomC τe) (hg : InDomC τg) :
+    -1 ≤ headingError τe τg ∧ headingError τe τg ≤ 1 := by
+  unfold headingError
+  apply clip_range_closed
+  · have := he.2; have := hg.1; linarith
+  · have := he.1; have := hg.2; linarith
+
+theorem headingError_abs_eq_d_closed {τe τg : Rat} (he : InDomC τe) (hg : InDomC τg) :
+    absR (headingError τe τg) = circDist τe τg :=
+  absR_clip_closed he hg
+
+theorem analyzerYawError_closed {τe τg : Rat} (he : InDomC τe) (hg : InDomC τg) :
+    (-1 ≤ analyzerYawError τe τg ∧ analyzerYawError τe τg ≤ 1) ∧ absR (analyzerYawError τe τg) = circDist τe τg := by
+  rw [analyzerYawError_eq_headingError]
+  exact ⟨headingError_range_closed he hg, headingError_abs_eq_d_closed he hg⟩
+
+theorem frame_invariant_closed {τ0 τe τg : Rat} (h0 : InDomC τ0) (he : InDomC τe) (hg : InDomC τg) :
+    aphWeightMap τ0 τe τg = aphWeight τe τg := by
+  unfold aphWeightMap
+  have de : InDom (wrapYaw (τe + τ0)) :=
+    wrapYaw_inDom_closed (by have := he.1; have := h0.1; linarith) (by have := he.2; have := h0.2; linarith)
+  have dg : InDom (wrapYaw (τg + τ0)) :=
+    wrapYaw_inDom_closed (by have := hg.1; have := h0.1; linarith) (by have := hg.2; have := h0.2; linarith)
+  rw [(aphWeight_eq de dg).1, (aphWeight_eq_closed he hg).1, circDist_wrapYaw_closed h0 he hg]
+
+/-- the float-reachable input `yaw = −π`: same heading as `π`, half a turn from `0` -/
+example : InDomC (-1) ∧ ¬ InDom (-1) ∧ aphWeight (-1) 1 = 1 ∧ headingError (-1) 1 = 0 ∧ aphWeight (-1) 0 = 0 ∧
+    headingError 0 (-1) = -1 ∧ absR ((-1 : Rat) - 1) = 2 := by decide +kernel
+
+/-! ## no ground truth (outside the property's quantifier; audit C09-4) -/
+
+theorem no_ground_truth (τe : Rat) : aphValue τe none = 0 ∧ headingErrorOpt τe none = none ∧
+    ∀ g, aphValue τe (some g) = aphWeight τe g ∧ headingErrorOpt τe (some g) = some (headingError τe g) :=
+  ⟨rfl, rfl, fun _ => ⟨rfl, rfl⟩⟩
+
+/-! # `YawBridge` over `ℝ` (where the angle function exists on the whole circle): every field is a theorem
+
+`PEval.Lemmas.HeadingReal`, with `at2R y x = Complex.arg (x + y·i) / π` for `np.arctan2(y, x) / π` and `arccos / π` for `ac`.
+The τ-model's input `τ` (a rational number of half-turns, cast to `ℝ`) IS the yaw the code computes from either
+representative of the quaternion `±(cos(τπ/2), 0, 0, sin(τπ/2))` the harness builds; dot and cross product of two heading
+directions are cosine and sine of the yaw difference; `arccos` is strictly decreasing; the sine is positive exactly on `(0, π)`.
+What stays assumed is only that numpy's `arctan2` / pyquaternion's float arithmetic compute these real functions to
+within the comparison tolerance. -/
+
+/-- field `dom` and the identification τ ↔ quaternion, both signs: `arctan2` of the code's two polynomials gives back `τ` -/
+theorem real_yaw_recovered (τ : ℚ) (h : InDom τ) (neg : Bool) :
+    let w : ℝ := (if neg then -1 else 1) * Real.cos ((τ : ℝ) * Real.pi / 2)
+    let z : ℝ := (if neg then -1 else 1) * Real.sin ((τ : ℝ) * Real.pi / 2)
+    HeadingReal.at2R (HeadingReal.yawDirR w z).2 (HeadingReal.yawDirR w z).1 = (τ : ℝ) :=
+  HeadingReal.yaw_recovered (τ : ℝ) (by exact_mod_cast h.1) (by exact_mod_cast h.2) neg
+
+/-- the heading direction of the quaternion of yaw `τπ` is `(cos τπ, sin τπ)`, for `q` and for `−q` -/
+theorem real_yawDir (τ : ℝ) :
+    HeadingReal.yawDirR (Real.cos (τ * Real.pi / 2)) (Real.sin (τ * Real.pi / 2)) = (Real.cos (τ * Real.pi), Real.sin (τ * Real.pi)) ∧
+    HeadingReal.yawDirR (-Real.cos (τ * Real.pi / 2)) (-Real.sin (τ * Real.pi / 2))
+      = (Real.cos (τ * Real.pi), Real.sin (τ * Real.pi)) :=
+  ⟨HeadingReal.yawDirR_of_yaw τ, by rw [HeadingReal.yawDirR_neg]; exact HeadingReal.yawDirR_of_yaw τ⟩
+
+/-- fields `dist`, `ac_anti`, `ac_one`, `ac_neg_one` over `ℝ` with `ac = arccos / π` -/
+theorem real_dist_fields :
+    (∀ α β : ℝ, Real.cos (α * Real.pi) * Real.cos (β * Real.pi) + Real.sin (α * Real.pi) * Real.sin (β * Real.pi)
+      = Real.cos ((α - β) * Real.pi)) ∧
+    (∀ α β d : ℝ, 0 ≤ d → d ≤ 1 → (∃ k : ℤ, d = α - β + 2 * k ∨ d = -(α - β) + 2 * k) →
+      d = Real.arccos (Real.cos ((α - β) * Real.pi)) / Real.pi) ∧
+    (∀ x y : ℝ, -1 ≤ x → x < y → y ≤ 1 → Real.arccos y / Real.pi < Real.arccos x / Real.pi) ∧
+    Real.arccos 1 / Real.pi = 0 ∧ Real.arccos (-1) / Real.pi = 1 :=
+  ⟨HeadingReal.cosDiffR_eq, fun _ _ _ h0 h1 hd => HeadingReal.dist_real h0 h1 hd,
+    fun _ _ hx hxy hy => HeadingReal.arccos_anti hx hxy hy, by simp,
+    by rw [Real.arccos_neg_one]; exact div_self Real.pi_ne_zero⟩
+
+/-- field `sin_sign` over `ℝ` -/
+theorem real_sin_sign :
+    (∀ α β : ℝ, Real.cos (α * Real.pi) * Real.sin (β * Real.pi) - Real.sin (α * Real.pi) * Real.cos (β * Real.pi)
+      = Real.sin ((β - α) * Real.pi)) ∧
+    (∀ α β e : ℝ, -1 ≤ e → e ≤ 1 → (∃ k : ℤ, e = β - α + 2 * k) →
+      ((0 < e ∧ e < 1) ↔ 0 < Real.sin ((β - α) * Real.pi))) :=
+  ⟨HeadingReal.sinDiffR_eq, fun _ _ _ h0 h1 he => HeadingReal.sin_sign_real h0 h1 he⟩
+
+/-- the hypotheses of `real_dist_fields` / `real_sin_sign` are what the τ-model delivers: `circDist` is in `[0, 1]` and congruent to
+`±(α − β)` mod 2, the yaw error is in `[−1, 1]` and congruent to `β − α` mod 2 -/
+theorem tau_model_congruences {a b : Rat} (ha : InDom a) (hb : InDom b) :
+    (0 ≤ circDist a b ∧ circDist a b ≤ 1 ∧
+      ∃ k : Int, circDist a b = a - b + 2 * k ∨ circDist a b = -(a - b) + 2 * k) ∧
+    (-1 ≤ headingError a b ∧ headingError a b ≤ 1 ∧ ∃ k : Int, headingError a b = b - a + 2 * k) := by
+  refine ⟨⟨circDist_nonneg ha hb, circDist_le_one a b, ?_⟩, (headingError_range ha hb).1, (headingError_range ha hb).2, ?_⟩
+  · unfold circDist absR
+    simp only
+    split_ifs
+    · exact ⟨0, Or.inr (by push_cast; ring)⟩
+    · exact ⟨1, Or.inl (by push_cast; ring)⟩
+    · exact ⟨0, Or.inl (by push_cast; ring)⟩
+    · exact ⟨1, Or.inr (by push_cast; ring)⟩
+  · rcases headingError_congr a b with h | h | h
+    · exact ⟨0, by rw [h]; push_cast; ring⟩
+    · exact ⟨1, by rw [h]; push_cast; ring⟩
+    · exact ⟨-1, by rw [h]; push_cast; ring⟩
 
 end PEval.C09
